@@ -137,10 +137,17 @@ Aggregate(f, args, ps, env) ==
             IF \A i \in 1..Len(vals) : vals[i].t \in {"s", "i"} THEN VStr(RenderJson(VList(vals))) ELSE VUnspec
        [] OTHER -> VUnspec            \* quantile: approximate by definition
 
+\* does the expression mention (by name) a select field that is an aggregate ?
+RECURSIVE RefsAggr(_, _)
+RefsAggr(e, env) == \/ (e.k = "name" /\ EnvFind(env, e.op, 1) # 0 /\ HasAggr(env[EnvFind(env, e.op, 1)].e))
+                    \/ \E i \in 1..Len(e.a) : RefsAggr(e.a[i], env)
 RECURSIVE AggEval(_, _, _)
 AggEval(e, ps, env) ==
   IF e.k = "call" /\ e.op \in AggrNames THEN Aggregate(e.op, e.a, ps, env)
-  ELSE IF e.k = "bin" /\ HasAggr(e) THEN EvalBin(e.op, AggEval(e.a[1], ps, env), AggEval(e.a[2], ps, env))
+  ELSE IF e.k = "name" /\ EnvFind(env, e.op, 1) # 0 /\ HasAggr(env[EnvFind(env, e.op, 1)].e) THEN
+       \* the name of another aggregate field: that field's value for THIS group
+       LET i == EnvFind(env, e.op, 1) IN AggEval(env[i].e, ps, SubSeq(env, 1, i - 1) \o SubSeq(env, i + 1, Len(env)))
+  ELSE IF e.k = "bin" /\ (HasAggr(e) \/ RefsAggr(e, env)) THEN EvalBin(e.op, AggEval(e.a[1], ps, env), AggEval(e.a[2], ps, env))
   ELSE Eval(e, ps[1], env)
 
 AggRows(stmt, pairs, env) ==
